@@ -1,1 +1,1569 @@
-fn main() { eprintln!("not built yet"); std::process::exit(2); }
+//! E-SCRIPT: deterministic simulation of script execution under interruption (property C05).
+//!
+//! Real code: ckb_script::TransactionScriptsVerifier::{verify, resumable_verify,
+//! resume_from_state, complete, resumable_verify_with_signal}, the Scheduler with its
+//! suspend/resume, all syscalls, ckb-vm (asm machine), on the compiled RISC-V programs of
+//! /repo/script/testdata and the bundled secp256k1 lock.
+//! Simulated: the caller's interruption schedule (chunk budgets, dropping and rebuilding the
+//! verifier between chunks, whole-run budgets) and, through `machine::SimMachine`, the exact VM
+//! cycle at which each Suspend/Resume/Stop command reaches the real watch channel.
+//! Oracle: the uninterrupted `verify(max_cycles)` of the same transaction.
+//!
+//! API semantics the oracle relies on (read from script/src/verify.rs and scheduler.rs):
+//! * the limit passed to resumable_verify / resume_from_state is a per-call step budget
+//!   (Scheduler::run starts from the given limit on every call); the cycles in
+//!   VerifyResult::Completed are the total of the whole transaction; a Suspended state carries
+//!   only the cycles of completed groups, so nothing is asserted about intermediate values;
+//! * verify(max), complete(state, max) and resumable_verify_with_signal(max, ..) take a budget
+//!   for the whole transaction: this is where "budget < cost never succeeds" is checked.
+
+mod corpus;
+mod dag;
+mod machine;
+
+use ckb_script::{
+    ChunkCommand, ScriptError, TransactionScriptError, TransactionScriptsVerifier,
+    TransactionState, VerifyResult, VmState, generate_ckb_syscalls,
+    types::{DebugPrinter, Machine, SgData, VmContext, VmId},
+};
+use ckb_traits::{CellDataProvider, ExtensionProvider, HeaderProvider};
+use ckb_types::{core::Cycle, packed::Byte32};
+use ckb_vm::{Error as VMError, Register, SupportMachine, Syscalls, registers::A7};
+use corpus::{Extra, MockLoader, Program};
+use machine::{Cmd, Instrumented, Outcome, SimCtx, SimMachine, Slot};
+use serde::{Deserialize, Serialize};
+use simcore::*;
+use std::cell::RefCell;
+use std::panic::{AssertUnwindSafe, catch_unwind};
+use std::sync::atomic::{AtomicBool, Ordering};
+use std::sync::{Arc, Mutex};
+
+const PROP: &str = "C05";
+const ENUM_WINDOW: u64 = 2000;
+const ENUM_MAX_COST: u64 = 100_000;
+const MAX_CHUNK_CALLS: usize = 20_000;
+
+// ------------------------------------------------------------------ scenario
+
+#[derive(Clone, Debug, Serialize, Deserialize)]
+struct SigEvent {
+    at: u64,
+    cmd: String,
+}
+
+#[derive(Clone, Debug, Serialize, Deserialize)]
+#[serde(tag = "op")]
+enum Op {
+    /// resumable_verify(budgets[0]), then resume_from_state(state, budgets[i]); after chunk i, if
+    /// rebuild[i], the verifier is dropped and a new one built from a freshly built transaction
+    /// (only the TransactionState survives). When the budgets run out and the run is still
+    /// suspended: finish "resume_max" = resume_from_state(state, max_cycles) until done,
+    /// "complete" = complete(state, complete_budget).
+    Chunks {
+        budgets: Vec<u64>,
+        #[serde(default)]
+        rebuild: Vec<bool>,
+        finish: String,
+        #[serde(default)]
+        complete_budget: u64,
+        /// the test-only debug pause syscall (2178) really pauses in this schedule
+        #[serde(default)]
+        pause: bool,
+    },
+    /// one whole-run budget: api "verify" = verify(budget); "signal" =
+    /// resumable_verify_with_signal(budget) without commands
+    Budget { api: String, budget: u64 },
+    /// resumable_verify_with_signal(limit) on SimMachine; events are delivered when the VMs have
+    /// executed `at` cycles (or at once while the VM is paused)
+    Signals {
+        limit: u64,
+        events: Vec<SigEvent>,
+        #[serde(default)]
+        pause: bool,
+    },
+}
+
+#[derive(Clone, Debug, Serialize, Deserialize)]
+struct Scenario {
+    engine: String,
+    seed: u64,
+    kind: String,
+    program: Program,
+    #[serde(default)]
+    extras: Vec<Extra>,
+    ops: Vec<Op>,
+    /// informational: reference verdict and cost seen by the generator
+    #[serde(default)]
+    ref_note: String,
+}
+
+// ------------------------------------------------------------------ verifier plumbing
+
+#[derive(Clone)]
+struct SysCtx {
+    printer: DebugPrinter,
+    skip_pause: Arc<AtomicBool>,
+}
+
+/// Re-creation of the crate's test-only `Pause` syscall (script/src/syscalls/pause.rs).
+struct DebugPause {
+    skip: Arc<AtomicBool>,
+}
+impl<Mac: SupportMachine> Syscalls<Mac> for DebugPause {
+    fn initialize(&mut self, _machine: &mut Mac) -> Result<(), VMError> {
+        Ok(())
+    }
+    fn ecall(&mut self, machine: &mut Mac) -> Result<bool, VMError> {
+        if machine.registers()[A7].to_u64() != 2178 {
+            return Ok(false);
+        }
+        if self.skip.load(Ordering::SeqCst) {
+            return Ok(true);
+        }
+        Err(VMError::Pause)
+    }
+}
+
+fn gen_syscalls<DL, M>(
+    vm_id: &VmId,
+    sg_data: &SgData<DL>,
+    vm_context: &VmContext<DL>,
+    ctx: &SysCtx,
+) -> Vec<Box<dyn Syscalls<M>>>
+where
+    DL: CellDataProvider + HeaderProvider + ExtensionProvider + Send + Sync + Clone + 'static,
+    M: SupportMachine,
+{
+    let mut v = generate_ckb_syscalls(vm_id, sg_data, vm_context, &ctx.printer);
+    v.push(Box::new(DebugPause {
+        skip: Arc::clone(&ctx.skip_pause),
+    }));
+    v
+}
+
+type PlainVerifier = TransactionScriptsVerifier<MockLoader, SysCtx, Machine>;
+type SimVerifier = TransactionScriptsVerifier<MockLoader, SysCtx, SimMachine>;
+
+struct Env {
+    program: Program,
+    extras: Vec<Extra>,
+    max_cycles: u64,
+}
+
+fn sys_ctx(skip_pause: bool) -> SysCtx {
+    SysCtx {
+        printer: Arc::new(|_h: &Byte32, _m: &str| {}),
+        skip_pause: Arc::new(AtomicBool::new(skip_pause)),
+    }
+}
+
+impl Env {
+    fn new(program: &Program, extras: &[Extra]) -> Result<Env, String> {
+        let b = corpus::build(program, extras)?;
+        Ok(Env {
+            program: program.clone(),
+            extras: extras.to_vec(),
+            max_cycles: b.max_cycles,
+        })
+    }
+    /// a verifier over a freshly built transaction (nothing shared with earlier ones)
+    fn plain(&self, skip_pause: bool) -> PlainVerifier {
+        let b = corpus::build(&self.program, &self.extras).expect("built before");
+        TransactionScriptsVerifier::new_with_generator(
+            Arc::new(b.rtx),
+            MockLoader,
+            corpus::consensus(),
+            corpus::tx_env(),
+            gen_syscalls,
+            sys_ctx(skip_pause),
+        )
+    }
+    fn sim(&self, skip_pause: bool) -> SimVerifier {
+        let b = corpus::build(&self.program, &self.extras).expect("built before");
+        TransactionScriptsVerifier::new_with_generator(
+            Arc::new(b.rtx),
+            MockLoader,
+            corpus::consensus(),
+            corpus::tx_env(),
+            gen_syscalls,
+            sys_ctx(skip_pause),
+        )
+    }
+}
+
+// ------------------------------------------------------------------ verdicts
+
+#[derive(Clone, Debug, PartialEq, Eq)]
+enum Verdict {
+    Ok(u64),
+    Err {
+        kind: String,
+        group: String,
+        detail: String,
+    },
+}
+
+impl Verdict {
+    fn kind(&self) -> &str {
+        match self {
+            Verdict::Ok(_) => "Ok",
+            Verdict::Err { kind, .. } => kind,
+        }
+    }
+    fn short(&self) -> String {
+        match self {
+            Verdict::Ok(c) => format!("Ok({c})"),
+            Verdict::Err {
+                kind,
+                group,
+                detail,
+            } => {
+                let d: String = detail.chars().take(90).collect();
+                format!("Err({kind} @{group} {d})")
+            }
+        }
+    }
+    /// "the same failure": same error kind, same script group, same detail; for the cycle-limit
+    /// error the reported limit is not compared (it is the per-group remainder of the budget)
+    fn same_as(&self, o: &Verdict) -> bool {
+        match (self, o) {
+            (Verdict::Ok(a), Verdict::Ok(b)) => a == b,
+            (
+                Verdict::Err {
+                    kind: k1,
+                    group: g1,
+                    detail: d1,
+                },
+                Verdict::Err {
+                    kind: k2,
+                    group: g2,
+                    detail: d2,
+                },
+            ) => k1 == k2 && g1 == g2 && (k1 == "ExceededMaximumCycles" || d1 == d2),
+            _ => false,
+        }
+    }
+}
+
+fn script_error_kind(e: &ScriptError) -> &'static str {
+    match e {
+        ScriptError::ScriptNotFound(_) => "ScriptNotFound",
+        ScriptError::ExceededMaximumCycles(_) => "ExceededMaximumCycles",
+        ScriptError::CyclesOverflow(..) => "CyclesOverflow",
+        ScriptError::MultipleMatches => "MultipleMatches",
+        ScriptError::ValidationFailure(..) => "ValidationFailure",
+        ScriptError::EncounteredKnownBugs(..) => "EncounteredKnownBugs",
+        ScriptError::InvalidScriptHashType(_) => "InvalidScriptHashType",
+        ScriptError::InvalidVmVersion(_) => "InvalidVmVersion",
+        ScriptError::VMInternalError(_) => "VMInternalError",
+        ScriptError::Interrupts => "Interrupts",
+        ScriptError::Other(_) => "Other",
+    }
+}
+
+fn verdict_of_err(e: &ckb_error::Error) -> Verdict {
+    if let Some(t) = e.root_cause().downcast_ref::<TransactionScriptError>() {
+        let se = t.script_error();
+        let kind = script_error_kind(se).to_string();
+        let detail = if kind == "ExceededMaximumCycles" {
+            String::new()
+        } else {
+            se.to_string()
+        };
+        return Verdict::Err {
+            kind,
+            group: t.originating_script().to_string(),
+            detail,
+        };
+    }
+    let s = e.to_string();
+    if s.contains("VM Interrupts") {
+        return Verdict::Err {
+            kind: "Interrupts".into(),
+            group: String::new(),
+            detail: String::new(),
+        };
+    }
+    Verdict::Err {
+        kind: "NonScriptError".into(),
+        group: String::new(),
+        detail: s,
+    }
+}
+
+fn verdict_of(r: &Result<Cycle, ckb_error::Error>) -> Verdict {
+    match r {
+        Ok(c) => Verdict::Ok(*c),
+        Err(e) => verdict_of_err(e),
+    }
+}
+
+// ------------------------------------------------------------------ panics
+
+thread_local! {
+    static LAST_PANIC: RefCell<Option<String>> = const { RefCell::new(None) };
+}
+
+fn install_panic_hook() {
+    std::panic::set_hook(Box::new(|info| {
+        let msg = format!("{info}");
+        let short: String = msg.chars().take(300).collect();
+        LAST_PANIC.with(|p| *p.borrow_mut() = Some(short.clone()));
+        // a panic of the child task on the runtime's worker thread would leave the parent
+        // waiting forever: tell the run in progress
+        if let Some(ctx) = machine::current_ctx() {
+            ctx.note_child_panic(short);
+        }
+    }));
+}
+
+fn guarded<T>(f: impl FnOnce() -> T) -> Result<T, String> {
+    LAST_PANIC.with(|p| *p.borrow_mut() = None);
+    catch_unwind(AssertUnwindSafe(f)).map_err(|_| {
+        LAST_PANIC
+            .with(|p| p.borrow_mut().take())
+            .unwrap_or_else(|| "panic".into())
+    })
+}
+
+// ------------------------------------------------------------------ reference
+
+#[derive(Clone, Debug)]
+struct Reference {
+    verdict: Verdict,
+    /// cycles at which the uninterrupted run ends (success: total; validation failure: cycles
+    /// consumed when the failing script exits), None when not measurable
+    cost: Option<u64>,
+    groups: usize,
+}
+
+const KNOWN_INFINITE: &[&str] = &[
+    "infinite_loop",
+    "infinite_exec",
+    "spawn_exec_infinite",
+    "spawn_out_of_cycles",
+    "spawn_out_of_cycles_wrap",
+    "spawn_huge_swap",
+];
+
+fn reference(env: &Env) -> Result<Reference, String> {
+    let v = env.plain(true);
+    let groups = v.groups().count();
+    let r = guarded(|| v.verify(env.max_cycles)).map_err(|p| format!("reference run panicked: {p}"))?;
+    let verdict = verdict_of(&r);
+    let cost = match &verdict {
+        Verdict::Ok(c) => Some(*c),
+        Verdict::Err { kind, .. } if kind == "ValidationFailure" => {
+            // replay group by group to measure where the failing script exits
+            let mut sum = 0u64;
+            let mut found = None;
+            let gs: Vec<_> = v
+                .groups_with_type()
+                .map(|(t, h, g)| (t, h.clone(), g.clone()))
+                .collect();
+            for (t, h, g) in gs {
+                match v.verify_single(t, &h, env.max_cycles) {
+                    Ok(c) => sum += c,
+                    Err(ScriptError::ValidationFailure(..)) => {
+                        let tid: Byte32 = ckb_chain_spec::consensus::TYPE_ID_CODE_HASH.into();
+                        let is_type_id = g.script.code_hash() == tid;
+                        if !is_type_id {
+                            if let Ok(t) = v.detailed_run(&g, env.max_cycles) {
+                                found = Some(sum + t.consumed_cycles);
+                            }
+                        }
+                        break;
+                    }
+                    Err(_) => break,
+                }
+            }
+            found
+        }
+        _ => None,
+    };
+    Ok(Reference {
+        verdict,
+        cost,
+        groups,
+    })
+}
+
+// ------------------------------------------------------------------ run context
+
+struct Ctx {
+    res: RunResult,
+    log: Fnv,
+    il: Fnv,
+    states: std::collections::BTreeSet<u64>,
+}
+impl Ctx {
+    fn ev(&mut self, s: &str) {
+        self.log.write_str(s);
+    }
+    fn viol(&mut self, class: &str, detail: String) {
+        if self.res.violation.is_none() {
+            self.res.violation = Some(Violation {
+                property: PROP.into(),
+                class: class.into(),
+                detail,
+            });
+        }
+    }
+    fn state(&mut self, parts: &[u64]) {
+        self.states.insert(fp(parts));
+    }
+}
+
+fn prog_id(p: &Program) -> u64 {
+    let mut h = Fnv::new();
+    h.write_str(&p.name);
+    h.write_u64(p.arg);
+    h.write_u64(p.arg2);
+    h.write_u64(p.arg3);
+    h.finish()
+}
+
+fn bucket(pos: u64, total: u64) -> u64 {
+    if total == 0 { 0 } else { (pos.min(total) * 16) / total.max(1) }
+}
+
+fn observe_state(cx: &mut Ctx, sc: &Scenario, st: &TransactionState, pos: u64, cost: u64) {
+    let pid = prog_id(&sc.program);
+    match &st.state {
+        None => {
+            cx.res.probes.inc("suspended_before_type_id_group");
+            cx.state(&[pid, sc.program.vm as u64, 0, st.current as u64, bucket(pos, cost), 99]);
+        }
+        Some(s) => {
+            let vms = s.vms.len() as u64;
+            let waiting = s
+                .vms
+                .iter()
+                .filter(|(_, st, _)| !matches!(st, VmState::Runnable | VmState::Terminated))
+                .count() as u64;
+            if vms >= 2 {
+                cx.res.probes.inc("spawn_multi_vm_suspended");
+            }
+            if vms > s.instantiated_ids.len() as u64 {
+                cx.res.probes.inc("suspended_with_swapped_out_vm");
+            }
+            if !s.fds.is_empty() {
+                cx.res.probes.inc("suspended_with_open_pipes");
+            }
+            if waiting > 0 {
+                cx.res.probes.inc("suspended_with_vm_blocked_on_io_or_wait");
+            }
+            if !s.terminated_vms.is_empty() {
+                cx.res.probes.inc("suspended_with_unreaped_terminated_vm");
+            }
+            // suspend() itself adds one SPAWN_EXTRA_CYCLES_BASE per instantiated VM before it
+            // records iteration_cycles; anything beyond that was pending from the last iteration
+            if s.iteration_cycles != 100_000 * s.instantiated_ids.len() as u64 {
+                cx.res.probes.inc("suspended_with_pending_iteration_cycles");
+            }
+            if s.vms.iter().any(|(_, _, snap)| !snap.pages_from_source.is_empty()) {
+                cx.res.probes.inc("suspended_with_lazily_loaded_pages");
+            }
+            cx.state(&[
+                pid,
+                sc.program.vm as u64,
+                vms,
+                st.current as u64,
+                bucket(pos, cost),
+                waiting.min(3),
+                (s.fds.len() as u64).min(8),
+            ]);
+        }
+    }
+    if st.current > 0 {
+        cx.res.probes.inc("suspended_in_later_group");
+    }
+}
+
+// ------------------------------------------------------------------ op execution
+
+fn check_against_ref(
+    cx: &mut Ctx,
+    what: &str,
+    got: &Verdict,
+    rf: &Reference,
+    class_prefix: &str,
+    desc: &str,
+) {
+    if !got.same_as(&rf.verdict) {
+        let class = match (&rf.verdict, got) {
+            (Verdict::Ok(a), Verdict::Ok(b)) if a != b => format!("{class_prefix}cycles_differ:{what}"),
+            _ => format!("{class_prefix}verdict_differs:{what}"),
+        };
+        cx.viol(
+            &class,
+            format!("{desc}: got {} but the uninterrupted run gives {}", got.short(), rf.verdict.short()),
+        );
+    }
+}
+
+fn exec_chunks(
+    cx: &mut Ctx,
+    sc: &Scenario,
+    env: &Env,
+    rf: &Reference,
+    budgets: &[u64],
+    rebuild: &[bool],
+    finish: &str,
+    complete_budget: u64,
+    pause: bool,
+) {
+    let cost = rf.cost.unwrap_or(env.max_cycles);
+    let desc = format!(
+        "chunks {:?}{} finish={finish}{} pause={pause}",
+        &budgets[..budgets.len().min(14)],
+        if budgets.len() > 14 { ".." } else { "" },
+        if finish == "complete" { format!("({complete_budget})") } else { String::new() }
+    );
+    cx.il.write_str("chunks");
+    let mut verifier = env.plain(!pause);
+    let mut state: Option<TransactionState> = None;
+    let mut spent: u64 = 0;
+    let mut calls = 0usize;
+    let mut interrupted = false;
+    let mut last_sig: Option<(usize, u64, u64)> = None;
+    let mut stalled = 0u32;
+    let mut i = 0usize;
+    let final_verdict: Verdict = loop {
+        let (budget, finishing) = if i < budgets.len() {
+            (budgets[i], false)
+        } else {
+            (env.max_cycles, true)
+        };
+        if finishing && finish == "complete" {
+            let st = state.as_ref().expect("suspended");
+            cx.il.write_u64(0xC0);
+            cx.il.write_u64(complete_budget);
+            cx.res.steps += 1;
+            let r = guarded(|| verifier.complete(st, complete_budget));
+            match r {
+                Ok(r) => break verdict_of(&r),
+                Err(p) => {
+                    cx.viol("panic:complete", format!("{desc}: complete panicked: {p}"));
+                    return;
+                }
+            }
+        }
+        cx.il.write_u64(budget);
+        cx.res.steps += 1;
+        calls += 1;
+        if calls > MAX_CHUNK_CALLS {
+            cx.res.harness_error = Some(format!("{desc}: more than {MAX_CHUNK_CALLS} chunk calls"));
+            return;
+        }
+        let r = guarded(|| match &state {
+            None => verifier.resumable_verify(budget),
+            Some(st) => verifier.resume_from_state(st, budget),
+        });
+        let r = match r {
+            Ok(r) => r,
+            Err(p) => {
+                let api = if state.is_none() { "resumable_verify" } else { "resume_from_state" };
+                cx.viol(&format!("panic:{api}"), format!("{desc}: call {calls} panicked: {p}"));
+                return;
+            }
+        };
+        if !finishing {
+            spent = spent.saturating_add(budget);
+        }
+        match r {
+            Ok(VerifyResult::Completed(c)) => {
+                if i + 1 < budgets.len() {
+                    cx.res.probes.inc("completed_before_all_budgets_used");
+                }
+                break Verdict::Ok(c);
+            }
+            Err(e) => break verdict_of_err(&e),
+            Ok(VerifyResult::Suspended(st)) => {
+                interrupted = true;
+                let consumed = st.current_cycles
+                    + st.state.as_ref().map(|s| s.total_cycles).unwrap_or(0);
+                let sig = (st.current, consumed, st.state.as_ref().map(|s| s.vms.len() as u64).unwrap_or(0));
+                if last_sig == Some(sig) {
+                    cx.res.probes.inc("chunk_without_progress");
+                    stalled += 1;
+                } else {
+                    stalled = 0;
+                }
+                last_sig = Some(sig);
+                if !finishing && consumed > spent && st.state.is_some() {
+                    cx.res.probes.inc("chunk_overshoot_after_unchecked_syscall_cycles");
+                }
+                if finishing {
+                    if pause {
+                        cx.res.probes.inc("debug_pause_suspend");
+                    }
+                    if stalled > 3 {
+                        // max_cycles as a step budget made no progress four times: the run
+                        // cannot finish (only legitimate for never-ending programs)
+                        break Verdict::Err {
+                            kind: "ExceededMaximumCycles".into(),
+                            group: format!("(suspended in group {})", st.current),
+                            detail: String::new(),
+                        };
+                    }
+                    if KNOWN_INFINITE.contains(&sc.program.name.as_str()) && calls > budgets.len() + 3 {
+                        // a never-ending program keeps consuming max_cycles per call
+                        let g = verifier
+                            .groups_with_type()
+                            .nth(st.current)
+                            .map(|(t, _, g)| {
+                                if let Some(n) = g.input_indices.first() {
+                                    format!("Inputs[{n}].{t}")
+                                } else if let Some(n) = g.output_indices.first() {
+                                    format!("Outputs[{n}].{t}")
+                                } else {
+                                    "Unknown".into()
+                                }
+                            })
+                            .unwrap_or_default();
+                        break Verdict::Err {
+                            kind: "ExceededMaximumCycles".into(),
+                            group: g,
+                            detail: String::new(),
+                        };
+                    }
+                }
+                observe_state(cx, sc, &st, consumed, cost);
+                state = Some(st);
+                if !finishing && rebuild.get(i).copied().unwrap_or(false) {
+                    // (ii) only the captured state survives
+                    let kept = state.take().unwrap();
+                    let moved = TransactionState::new(
+                        kept.state.clone(),
+                        kept.current,
+                        kept.current_cycles,
+                        kept.limit_cycles,
+                    );
+                    drop(kept);
+                    drop(verifier);
+                    verifier = env.plain(!pause);
+                    state = Some(moved);
+                    cx.res.faults.inc("state_dropped_and_rebuilt");
+                    cx.il.write_u64(0xEB);
+                }
+                cx.res.faults.inc(if finishing { "resume_after_pause" } else { "chunk_budget_exhausted_or_paused" });
+            }
+        }
+        i += 1;
+    };
+    cx.ev(&format!("{desc} -> {}", final_verdict.short()));
+    if interrupted {
+        cx.res.nontrivial = true;
+    }
+    if finish == "complete" {
+        if !interrupted {
+            // completed inside the listed budgets: plain comparison
+            check_against_ref(cx, "chunks", &final_verdict, rf, "", &desc);
+            return;
+        }
+        match rf.cost {
+            Some(c) if complete_budget < c => {
+                cx.res.faults.inc("budget_below_cost");
+                if final_verdict.kind() != "ExceededMaximumCycles" {
+                    cx.viol(
+                        "budget_not_enforced:complete",
+                        format!(
+                            "{desc}: complete(state, {complete_budget}) returned {} although the uninterrupted cost is {c}",
+                            final_verdict.short()
+                        ),
+                    );
+                }
+            }
+            Some(_) => check_against_ref(cx, "complete", &final_verdict, rf, "", &desc),
+            None => {
+                if rf.verdict.kind() != "ExceededMaximumCycles" || complete_budget >= env.max_cycles {
+                    check_against_ref(cx, "complete", &final_verdict, rf, "", &desc)
+                }
+            }
+        }
+    } else {
+        check_against_ref(cx, "chunks", &final_verdict, rf, "", &desc);
+    }
+}
+
+fn exec_budget(cx: &mut Ctx, env: &Env, rf: &Reference, api: &str, budget: u64) {
+    let desc = format!("{api}({budget})");
+    cx.il.write_str(api);
+    cx.il.write_u64(budget);
+    cx.res.steps += 1;
+    let got = match api {
+        "verify" => {
+            let v = env.plain(true);
+            match guarded(|| v.verify(budget)) {
+                Ok(r) => verdict_of(&r),
+                Err(p) => {
+                    cx.viol("panic:verify", format!("{desc} panicked: {p}"));
+                    return;
+                }
+            }
+        }
+        _ => match run_signals(env, budget, vec![], true) {
+            Ok((v, _)) => v,
+            Err(SigFail::Panic(p)) => {
+                cx.viol("panic:signal", format!("{desc} panicked: {p}"));
+                return;
+            }
+            Err(SigFail::Harness(e)) => {
+                cx.res.harness_error = Some(e);
+                return;
+            }
+        },
+    };
+    cx.ev(&format!("{desc} -> {}", got.short()));
+    match rf.cost {
+        Some(c) if budget < c => {
+            cx.res.faults.inc("budget_below_cost");
+            if got.kind() != "ExceededMaximumCycles" {
+                cx.viol(
+                    &format!("budget_not_enforced:{api}"),
+                    format!("{desc} returned {} although the uninterrupted cost is {c}", got.short()),
+                );
+            }
+        }
+        Some(_) => {
+            cx.res.probes.inc("budget_at_or_above_cost");
+            check_against_ref(cx, api, &got, rf, "budget:", &desc)
+        }
+        None => {}
+    }
+}
+
+enum SigFail {
+    Panic(String),
+    Harness(String),
+}
+
+struct SigStats {
+    pauses: u64,
+    suspends: u64,
+    resumes: u64,
+    implicit_resumes: u64,
+    stop_delivered: bool,
+    stop_noticed: bool,
+    while_paused: u64,
+    dropped: u64,
+    log: Vec<(u8, u64)>,
+    machine_runs: u64,
+}
+
+thread_local! {
+    static RUNTIME: RefCell<Option<(tokio::runtime::Runtime, Arc<Slot>)>> = const { RefCell::new(None) };
+}
+
+fn with_runtime<T>(f: impl FnOnce(&tokio::runtime::Runtime, &Arc<Slot>) -> T) -> T {
+    RUNTIME.with(|cell| {
+        let mut g = cell.borrow_mut();
+        if g.is_none() {
+            let slot: Arc<Slot> = Arc::new(Slot::default());
+            let s2 = Arc::clone(&slot);
+            let rt = tokio::runtime::Builder::new_multi_thread()
+                .worker_threads(1)
+                .max_blocking_threads(1)
+                .on_thread_start(move || machine::bind_thread(Arc::clone(&s2)))
+                .build()
+                .expect("tokio runtime");
+            *g = Some((rt, slot));
+        }
+        let (rt, slot) = g.as_ref().unwrap();
+        f(rt, slot)
+    })
+}
+
+fn drop_runtime() {
+    RUNTIME.with(|cell| {
+        if let Some((rt, _)) = cell.borrow_mut().take() {
+            rt.shutdown_background();
+        }
+    });
+}
+
+fn run_signals(
+    env: &Env,
+    limit: u64,
+    events: Vec<(u64, Cmd)>,
+    skip_pause: bool,
+) -> Result<(Verdict, SigStats), SigFail> {
+    let verifier = env.sim(skip_pause);
+    let (tx, mut rx) = tokio::sync::watch::channel(ChunkCommand::Resume);
+    let ctx = SimCtx::new(events, tx);
+    let out = with_runtime(|rt, slot| {
+        *slot.0.lock().unwrap() = Some(Arc::clone(&ctx));
+        let fut = verifier.resumable_verify_with_signal(limit, &mut rx);
+        let wrapped = Instrumented {
+            fut: Box::pin(fut),
+            ctx: Arc::clone(&ctx),
+        };
+        let out = guarded(|| rt.block_on(wrapped));
+        *slot.0.lock().unwrap() = None;
+        out
+    });
+    let out = match out {
+        Ok(o) => o,
+        Err(p) => {
+            drop_runtime();
+            return Err(SigFail::Panic(p));
+        }
+    };
+    let st = ctx.plan.lock().unwrap();
+    if let Some(e) = &st.harness_error {
+        drop_runtime();
+        return Err(SigFail::Harness(e.clone()));
+    }
+    let stats = SigStats {
+        pauses: st.pauses,
+        suspends: st.suspends_delivered,
+        resumes: st.resumes_delivered,
+        implicit_resumes: st.implicit_resumes,
+        stop_delivered: st.stop_delivered,
+        stop_noticed: st.stop_noticed,
+        while_paused: st.delivered_while_paused,
+        dropped: st.dropped_parent_blocked,
+        log: st.log.clone(),
+        machine_runs: st.machine_runs,
+    };
+    match out {
+        Outcome::Done(r) => Ok((verdict_of(&r), stats)),
+        Outcome::ChildPanicked(p) => {
+            // the child task is gone; the runtime may hold a poisoned scheduler: start afresh
+            drop(st);
+            drop_runtime();
+            Err(SigFail::Panic(p))
+        }
+    }
+}
+
+fn parse_cmd(s: &str) -> Cmd {
+    match s {
+        "suspend" => Cmd::Suspend,
+        "stop" => Cmd::Stop,
+        _ => Cmd::Resume,
+    }
+}
+
+fn exec_signals(
+    cx: &mut Ctx,
+    env: &Env,
+    rf: &Reference,
+    limit: u64,
+    events: &[SigEvent],
+    pause: bool,
+) {
+    let desc = format!(
+        "signals limit={limit} pause={pause} {:?}",
+        events.iter().take(12).map(|e| format!("{}@{}", e.cmd, e.at)).collect::<Vec<_>>()
+    );
+    cx.il.write_str("signals");
+    cx.il.write_u64(limit);
+    for e in events {
+        cx.il.write_u64(e.at);
+        cx.il.write_str(&e.cmd);
+    }
+    cx.res.steps += 1;
+    let evs: Vec<(u64, Cmd)> = events.iter().map(|e| (e.at, parse_cmd(&e.cmd))).collect();
+    let (got, st) = match run_signals(env, limit, evs, !pause) {
+        Ok(x) => x,
+        Err(SigFail::Panic(p)) => {
+            let class = if p.contains("exceeded max_cycles") {
+                "budget_not_enforced:signal_debug_assert"
+            } else {
+                "panic:signal"
+            };
+            cx.viol(class, format!("{desc}: panicked: {p}"));
+            return;
+        }
+        Err(SigFail::Harness(e)) => {
+            cx.res.harness_error = Some(format!("{desc}: {e}"));
+            return;
+        }
+    };
+    cx.res.faults.add("suspend_signal", st.suspends);
+    cx.res.faults.add("resume_signal", st.resumes);
+    cx.res.faults.add("implicit_resume_at_end_of_schedule", st.implicit_resumes);
+    if st.stop_delivered {
+        cx.res.faults.inc("stop_signal");
+    }
+    cx.res.faults.add("vm_paused_by_flag_or_syscall", st.pauses);
+    cx.res.probes.add("command_delivered_while_vm_paused", st.while_paused);
+    cx.res.probes.add("command_dropped_parent_blocked_in_child_send", st.dropped);
+    cx.res.steps += st.pauses;
+    if st.pauses > 0 {
+        cx.res.nontrivial = true;
+    }
+    if st.suspends > st.pauses && !st.stop_delivered {
+        cx.res.probes.inc("suspend_cancelled_before_vm_noticed");
+    }
+    let mut lh = Fnv::new();
+    for (k, p) in &st.log {
+        lh.write_u64(*k as u64);
+        lh.write_u64(*p);
+    }
+    cx.ev(&format!(
+        "{desc} -> {} pauses={} runs={} log={:x}",
+        got.short(),
+        st.pauses,
+        st.machine_runs,
+        lh.finish()
+    ));
+    let pid = prog_id(&env.program);
+    let cost = rf.cost.unwrap_or(env.max_cycles);
+    for (k, p) in &st.log {
+        if *k == 4 {
+            cx.state(&[pid, env.program.vm as u64, 0x51, bucket(*p, cost), rf.groups as u64]);
+        }
+    }
+    if st.stop_noticed {
+        cx.res.probes.inc("stop_noticed_by_vm");
+        if got.kind() != "Interrupts" {
+            cx.viol(
+                "stop_not_interrupt",
+                format!("{desc}: Stop was delivered and the VM paused on it, yet the result is {}", got.short()),
+            );
+        }
+        return;
+    }
+    if st.stop_delivered {
+        cx.res.probes.inc("stop_lost_race_with_completion");
+    }
+    match rf.cost {
+        Some(c) if limit < c => {
+            cx.res.faults.inc("budget_below_cost");
+            if got.kind() != "ExceededMaximumCycles" {
+                cx.viol(
+                    "budget_not_enforced:signal",
+                    format!(
+                        "{desc}: returned {} although the limit {limit} is below the uninterrupted cost {c} ({} pause(s) happened)",
+                        got.short(),
+                        st.pauses
+                    ),
+                );
+            }
+        }
+        _ => {
+            if rf.cost.is_none() && rf.verdict.kind() == "ExceededMaximumCycles" && limit < env.max_cycles {
+                return;
+            }
+            check_against_ref(cx, "signal", &got, rf, "", &desc)
+        }
+    }
+}
+
+fn exec(sc: &Scenario) -> RunResult {
+    let mut cx = Ctx {
+        res: RunResult {
+            seed: sc.seed,
+            ..Default::default()
+        },
+        log: Fnv::new(),
+        il: Fnv::new(),
+        states: Default::default(),
+    };
+    cx.il.write_u64(prog_id(&sc.program));
+    cx.il.write_u64(sc.program.vm as u64);
+    for e in &sc.extras {
+        cx.il.write_str(&e.name);
+        cx.il.write_u64(e.vm as u64 | (e.arg << 8));
+        cx.il.write_str(&e.place);
+    }
+    let env = match Env::new(&sc.program, &sc.extras) {
+        Ok(e) => e,
+        Err(e) => {
+            cx.res.harness_error = Some(e);
+            return finish(cx);
+        }
+    };
+    let rf = match reference(&env) {
+        Ok(r) => r,
+        Err(e) => {
+            // a panic of the plain uninterrupted run is not a chunking question
+            cx.res.harness_error = Some(e);
+            return finish(cx);
+        }
+    };
+    cx.ev(&format!(
+        "program {} vm{} args {} {} {} extras {} -> ref {} cost {:?} groups {}",
+        sc.program.name,
+        sc.program.vm,
+        sc.program.arg,
+        sc.program.arg2,
+        sc.program.arg3,
+        sc.extras.len(),
+        rf.verdict.short(),
+        rf.cost,
+        rf.groups
+    ));
+    if rf.verdict.kind() == "ExceededMaximumCycles" && !KNOWN_INFINITE.contains(&sc.program.name.as_str()) {
+        // a finite program that does not fit the reference budget: per-call step budgets make
+        // the comparison meaningless; nothing is claimed for it
+        cx.res.probes.inc("skipped_reference_hit_cycle_limit_on_finite_program");
+        return finish(cx);
+    }
+    match &rf.verdict {
+        Verdict::Ok(_) => cx.res.probes.inc("reference_success"),
+        Verdict::Err { kind, .. } => cx.res.probes.inc(&format!("reference_{kind}")),
+    }
+    if rf.groups > 1 {
+        cx.res.probes.inc("multi_group_transaction");
+    }
+    for op in &sc.ops {
+        if cx.res.violation.is_some() || cx.res.harness_error.is_some() {
+            break;
+        }
+        match op {
+            Op::Chunks {
+                budgets,
+                rebuild,
+                finish,
+                complete_budget,
+                pause,
+            } => exec_chunks(&mut cx, sc, &env, &rf, budgets, rebuild, finish, *complete_budget, *pause),
+            Op::Budget { api, budget } => exec_budget(&mut cx, &env, &rf, api, *budget),
+            Op::Signals {
+                limit,
+                events,
+                pause,
+            } => exec_signals(&mut cx, &env, &rf, *limit, events, *pause),
+        }
+    }
+    finish(cx)
+}
+
+fn finish(mut cx: Ctx) -> RunResult {
+    cx.res.log_hash = cx.log.finish();
+    cx.res.interleaving = cx.il.finish();
+    cx.res.states = cx.states.iter().copied().collect();
+    cx.res
+}
+
+// ------------------------------------------------------------------ generation
+
+fn has_debug_pause(p: &Program, extras: &[Extra]) -> bool {
+    let n = p.name.as_str();
+    matches!(
+        n,
+        "current_cycles_with_snapshot"
+            | "vm_version_with_snapshot"
+            | "exec_callee_pause"
+            | "load_is_even_with_snapshot"
+            | "load_arithmetic"
+            | "exec_configurable"
+            | "spawn_snapshot"
+    ) || extras.iter().any(|e| e.name == "current_cycles_with_snapshot")
+}
+
+fn many_debug_pauses(p: &Program, extras: &[Extra]) -> bool {
+    matches!(p.name.as_str(), "current_cycles_with_snapshot" | "spawn_snapshot")
+        || extras.iter().any(|e| e.name == "current_cycles_with_snapshot")
+}
+
+fn partition(r: &mut Rng, total: u64, ways: usize) -> Vec<u64> {
+    if total < 2 {
+        return vec![total.max(1)];
+    }
+    let ways = ways.min(total as usize).max(1);
+    let mut cuts: Vec<u64> = (0..ways - 1).map(|_| r.range(1, total - 1)).collect();
+    cuts.sort_unstable();
+    cuts.dedup();
+    let mut out = Vec::new();
+    let mut prev = 0;
+    for c in cuts {
+        out.push(c - prev);
+        prev = c;
+    }
+    out.push(total - prev);
+    out
+}
+
+fn gen_chunk_op(r: &mut Rng, rf: &Reference, env: &Env, pause_ok: bool, allow_pause_many: bool) -> Op {
+    let total = rf.cost.unwrap_or(env.max_cycles.min(3_000_000));
+    let style = r.below(10);
+    let mut budgets = match style {
+        0 => {
+            // tiny first chunks
+            let n = r.urange(1, 4);
+            (0..n).map(|_| r.range(1, 60)).collect::<Vec<_>>()
+        }
+        1 => {
+            // one split
+            vec![r.range(1, total.max(2) - 1)]
+        }
+        2 => {
+            // equal steps
+            let n = r.range(2, 12);
+            vec![(total / n).max(1); n as usize]
+        }
+        3 => {
+            // splits around the fixed syscall charges
+            let base = *r.pick(&[100_000u64, 100_800, 75_000, 800, 1_000_000]);
+            let n = r.urange(1, 4);
+            (0..n).map(|_| base.saturating_add(r.range(0, 40)).saturating_sub(r.range(0, 40)).max(1)).collect()
+        }
+        _ => {
+            let w = r.urange(2, 12);
+            partition(r, total, w)
+        }
+    };
+    if budgets.is_empty() {
+        budgets.push(1);
+    }
+    let rebuild: Vec<bool> = match r.below(3) {
+        0 => vec![false; budgets.len()],
+        1 => vec![true; budgets.len()],
+        _ => (0..budgets.len()).map(|_| r.chance(1, 2)).collect(),
+    };
+    let pause = pause_ok && allow_pause_many && r.chance(1, 3);
+    // complete() reports a debug pause as "cycle limit": never combine the two
+    let (finish, complete_budget) = match (rf.cost, if pause { 7 } else { r.below(8) }) {
+        (Some(c), 0) => ("complete", c),
+        (Some(c), 1) => ("complete", c + r.range(1, 1000)),
+        (Some(c), 2) if c > 1 => {
+            // (iv) chunk budgets summing to cost-1, then complete with the same total budget
+            let w = r.urange(1, 6);
+            budgets = partition(r, c - 1, w);
+            ("complete", c - 1)
+        }
+        (Some(c), 3) if c > 1 => ("complete", c - 1),
+        (None, 0) => ("complete", env.max_cycles),
+        _ => ("resume_max", 0),
+    };
+    let rebuild = if rebuild.len() != budgets.len() {
+        (0..budgets.len()).map(|_| r.chance(1, 2)).collect()
+    } else {
+        rebuild
+    };
+    Op::Chunks {
+        budgets,
+        rebuild,
+        finish: finish.to_string(),
+        complete_budget,
+        pause,
+    }
+}
+
+fn gen_signal_op(r: &mut Rng, rf: &Reference, env: &Env, pause_ok: bool) -> Op {
+    let span = rf.cost.unwrap_or(env.max_cycles).max(2);
+    let mut events: Vec<SigEvent> = Vec::new();
+    let push = |v: &mut Vec<SigEvent>, at: u64, c: &str| {
+        v.push(SigEvent {
+            at,
+            cmd: c.to_string(),
+        })
+    };
+    let style = r.below(10);
+    let npairs = match style {
+        0 => 1,
+        1..=5 => r.urange(1, 4),
+        _ => r.urange(3, 10),
+    };
+    let mut ats: Vec<u64> = (0..npairs).map(|_| r.range(0, span + span / 20)).collect();
+    ats.sort_unstable();
+    for at in ats {
+        match r.below(12) {
+            0 => {
+                // suspend cancelled at the same parked cycle
+                push(&mut events, at, "suspend");
+                push(&mut events, at, "resume");
+            }
+            1 => {
+                push(&mut events, at, "suspend");
+                push(&mut events, at, "suspend");
+                push(&mut events, at, "resume");
+            }
+            2 => push(&mut events, at, "resume"),
+            3 => {
+                // suspend, then (while paused) another suspend before the resume
+                push(&mut events, at, "suspend");
+                push(&mut events, at + 1, "suspend");
+                push(&mut events, at + 1, "resume");
+            }
+            _ => {
+                push(&mut events, at, "suspend");
+                push(&mut events, at + 1, "resume");
+            }
+        }
+    }
+    let mut limit = env.max_cycles;
+    let mut pause = pause_ok && r.chance(1, 4);
+    if let Some(c) = rf.cost {
+        match r.below(10) {
+            0 => limit = c,
+            1 => limit = c + 1,
+            2 if c > 1 => {
+                // below cost: at most one real pause, see the debug_assert in the child task
+                limit = c - 1;
+                pause = false;
+                events.truncate(2);
+            }
+            _ => {}
+        }
+    }
+    if r.chance(1, 6) {
+        let at = r.range(0, span);
+        push(&mut events, at, "stop");
+        events.sort_by_key(|e| e.at);
+    }
+    Op::Signals {
+        limit,
+        events,
+        pause,
+    }
+}
+
+fn pick_program(r: &mut Rng, kind: &str) -> (Program, Vec<Extra>) {
+    loop {
+        let p = corpus::gen_program(r);
+        if kind == "signals" {
+            // heavier weight on multi-VM programs; the very long ones are left to "random"
+            if matches!(p.name.as_str(), "spawn_create_17_spawn" | "spawn_huge_swap" | "spawn_recursive") {
+                continue;
+            }
+        }
+        let extras = if KNOWN_INFINITE.contains(&p.name.as_str()) {
+            vec![]
+        } else {
+            corpus::gen_extras(r, &p)
+        };
+        return (p, extras);
+    }
+}
+
+fn gen_scenario(seed: u64, kind: &str) -> Result<Scenario, String> {
+    if kind == "enumerate" {
+        return gen_enumerate(seed);
+    }
+    let mut r = Rng::new(seed ^ 0xC05C05 ^ if kind == "signals" { 0x5160 } else { 0 });
+    let (program, extras) = pick_program(&mut r, kind);
+    let env = Env::new(&program, &extras)?;
+    let rf = reference(&env)?;
+    let mut ops = Vec::new();
+    let pause_ok = has_debug_pause(&program, &extras);
+    let many = many_debug_pauses(&program, &extras);
+    let skip = rf.verdict.kind() == "ExceededMaximumCycles" && !KNOWN_INFINITE.contains(&program.name.as_str());
+    if !skip {
+        let work = rf.cost.unwrap_or(env.max_cycles).max(1);
+        let n = (40_000_000 / work).clamp(3, 30) as usize;
+        let mut pause_budget = if many { 1 } else { 1000 };
+        if kind == "signals" {
+            for _ in 0..n {
+                let mut op = gen_signal_op(&mut r, &rf, &env, pause_ok);
+                if let Op::Signals { pause, .. } = &mut op {
+                    if *pause {
+                        if pause_budget == 0 {
+                            *pause = false;
+                        } else {
+                            pause_budget -= 1;
+                        }
+                    }
+                }
+                ops.push(op);
+            }
+            if let Some(c) = rf.cost {
+                ops.push(Op::Budget { api: "signal".into(), budget: c });
+                if c > 0 {
+                    ops.push(Op::Budget { api: "signal".into(), budget: c - 1 });
+                }
+            }
+        } else {
+            for _ in 0..n {
+                let mut op = gen_chunk_op(&mut r, &rf, &env, pause_ok, true);
+                if let Op::Chunks { pause, .. } = &mut op {
+                    if *pause {
+                        if pause_budget == 0 {
+                            *pause = false;
+                        } else {
+                            pause_budget -= 1;
+                        }
+                    }
+                }
+                ops.push(op);
+            }
+            if let Some(c) = rf.cost {
+                for b in [c.saturating_sub(1), c, c + 1] {
+                    ops.push(Op::Budget { api: "verify".into(), budget: b });
+                }
+                if r.chance(1, 3) {
+                    ops.push(Op::Budget { api: "signal".into(), budget: c });
+                }
+            }
+            for _ in 0..r.urange(1, 2) {
+                ops.push(gen_signal_op(&mut r, &rf, &env, false));
+            }
+            r.shuffle(&mut ops);
+        }
+    }
+    Ok(Scenario {
+        engine: "simscript".into(),
+        seed,
+        kind: kind.into(),
+        program,
+        extras,
+        ops,
+        ref_note: format!("{} cost {:?}", rf.verdict.short(), rf.cost),
+    })
+}
+
+/// every program case small enough to have all its split points enumerated
+fn enum_cases() -> Vec<(Program, u64)> {
+    static CASES: std::sync::OnceLock<Vec<(Program, u64)>> = std::sync::OnceLock::new();
+    CASES
+        .get_or_init(|| {
+            let mut out = Vec::new();
+            for (name, vms, _) in corpus::catalogue() {
+                let args: Vec<(u64, u64, u64)> = match name {
+                    "spawn_cases" => (1..=19).map(|a| (a, 0, 0)).collect(),
+                    "exec_configurable" => (0..corpus::FROM_VARIANTS as u64)
+                        .map(|v| (v, 0b0000 | (1 << 8), 2 | (1 << 32)))
+                        .chain([(4, 0b0111 | (1 << 8), 1 | (2 << 32)), (0, 0b0111 | (1 << 8), 1 | (2 << 32))])
+                        .collect(),
+                    "spawn_configurable" => (0..corpus::FROM_VARIANTS as u64).map(|v| (v, 0, 0)).collect(),
+                    "load_code_to_stack_then_reuse" => (0..4).map(|v| (v, 0, 0)).collect(),
+                    "spawn_dag" => vec![(1, 1, 1), (2, 2, 2), (3, 3, 4)],
+                    "spawn_io_cycles" => vec![(1, 0, 0), (64, 1, 0)],
+                    n if KNOWN_INFINITE.contains(&n) => vec![],
+                    "spawn_recursive" | "spawn_create_17_spawn" | "secp_2in2out" => vec![],
+                    _ => vec![(0, 0, 0)],
+                };
+                for vm in vms {
+                    for (arg, arg2, arg3) in &args {
+                        let p = Program {
+                            name: name.to_string(),
+                            vm: *vm,
+                            arg: *arg,
+                            arg2: *arg2,
+                            arg3: *arg3,
+                        };
+                        let Ok(env) = Env::new(&p, &[]) else { continue };
+                        let Ok(rf) = reference(&env) else { continue };
+                        if let Some(c) = rf.cost {
+                            if c <= ENUM_MAX_COST && c >= 2 {
+                                out.push((p, c));
+                            }
+                        }
+                    }
+                }
+            }
+            out
+        })
+        .clone()
+}
+
+fn enum_units() -> Vec<(usize, u64, u64)> {
+    // (case index, first split point, last split point)
+    let mut units = Vec::new();
+    for (i, (_, cost)) in enum_cases().iter().enumerate() {
+        let mut lo = 1;
+        while lo < *cost {
+            let hi = (lo + ENUM_WINDOW - 1).min(cost - 1);
+            units.push((i, lo, hi));
+            lo = hi + 1;
+        }
+    }
+    units
+}
+
+fn gen_enumerate(seed: u64) -> Result<Scenario, String> {
+    let cases = enum_cases();
+    let units = enum_units();
+    if units.is_empty() {
+        return Err("no enumerable cases".into());
+    }
+    let (ci, lo, hi) = units[(seed % units.len() as u64) as usize];
+    let (program, cost) = cases[ci].clone();
+    let pause_ok = has_debug_pause(&program, &[]) && !many_debug_pauses(&program, &[]);
+    let ops = (lo..=hi)
+        .map(|k| Op::Chunks {
+            budgets: vec![k],
+            rebuild: vec![true],
+            finish: "resume_max".into(),
+            complete_budget: 0,
+            pause: pause_ok && k % 2 == 0,
+        })
+        .collect();
+    Ok(Scenario {
+        engine: "simscript".into(),
+        seed,
+        kind: "enumerate".into(),
+        program,
+        extras: vec![],
+        ops,
+        ref_note: format!("cost {cost}, split points {lo}..={hi}"),
+    })
+}
+
+// ------------------------------------------------------------------ CLI
+
+fn sample_of(sc: &Scenario) -> serde_json::Value {
+    let mut s = sc.clone();
+    let total = s.ops.len();
+    s.ops.truncate(6);
+    for op in &mut s.ops {
+        if let Op::Chunks { budgets, rebuild, .. } = op {
+            budgets.truncate(16);
+            rebuild.truncate(16);
+        }
+        if let Op::Signals { events, .. } = op {
+            events.truncate(16);
+        }
+    }
+    let mut v = serde_json::to_value(&s).unwrap();
+    v["ops_total"] = serde_json::json!(total);
+    v
+}
+
+fn main() {
+    let args: Vec<String> = std::env::args().collect();
+    let mode = args.get(1).map(|s| s.as_str()).unwrap_or("");
+    install_panic_hook();
+    let kind = arg_value(&args, "--kind").unwrap_or_else(|| "random".into());
+    let code = match mode {
+        "gen" => {
+            let seed: u64 = arg_value(&args, "--seed").unwrap().parse().unwrap();
+            match gen_scenario(seed, &kind) {
+                Ok(sc) => {
+                    println!("{}", serde_json::to_string_pretty(&sc).unwrap());
+                    0
+                }
+                Err(e) => {
+                    eprintln!("gen failed: {e}");
+                    2
+                }
+            }
+        }
+        "exec" => {
+            let path = arg_value(&args, "--scenario").unwrap();
+            let sc: Scenario = serde_json::from_str(&std::fs::read_to_string(path).unwrap()).unwrap();
+            let res = exec(&sc);
+            println!("{}", serde_json::to_string(&res).unwrap());
+            0
+        }
+        "batch" => {
+            let (lo, hi) = parse_seed_range(&arg_value(&args, "--seeds").unwrap());
+            let threads: usize = arg_value(&args, "--threads").map(|s| s.parse().unwrap()).unwrap_or(16);
+            let mut batch = BatchResult::new("simscript");
+            if kind == "enumerate" {
+                let _ = enum_cases(); // measured once, before the workers start
+            }
+            let errs = Mutex::new(Vec::new());
+            parallel_seeds(
+                lo,
+                hi,
+                threads,
+                |seed| match gen_scenario(seed, &kind) {
+                    Ok(sc) => {
+                        let res = exec(&sc);
+                        Some((sc, res))
+                    }
+                    Err(e) => {
+                        errs.lock().unwrap().push(format!("seed {seed}: gen: {e}"));
+                        None
+                    }
+                },
+                |_, x| {
+                    if let Some((sc, res)) = x {
+                        if batch.samples.len() < 3 && res.nontrivial {
+                            batch.samples.push(sample_of(&sc));
+                        }
+                        batch.absorb(&res, || serde_json::to_value(&sc).unwrap());
+                    }
+                },
+            );
+            for e in errs.into_inner().unwrap() {
+                if batch.harness_errors.len() < 20 {
+                    batch.harness_errors.push(e);
+                }
+            }
+            batch.finish();
+            println!("{}", serde_json::to_string(&batch).unwrap());
+            0
+        }
+        "corpus" => {
+            // diagnostic: reference verdict, cost and timing of every catalogue entry
+            for (name, vms, _) in corpus::catalogue() {
+                for vm in vms {
+                    let mut r = Rng::new(7);
+                    let mut p = corpus::gen_program(&mut r);
+                    while p.name != name {
+                        p = corpus::gen_program(&mut r);
+                    }
+                    p.vm = *vm;
+                    let t = std::time::Instant::now();
+                    match Env::new(&p, &[]).and_then(|env| reference(&env).map(|r| (env, r))) {
+                        Ok((env, rf)) => println!(
+                            "{name:32} vm{vm} arg {:>10} {:>6} max {:>9} -> {:70} cost {:?} groups {} [{:?}]",
+                            p.arg, p.arg2, env.max_cycles, rf.verdict.short(), rf.cost, rf.groups, t.elapsed()
+                        ),
+                        Err(e) => println!("{name:32} vm{vm} ERROR {e}"),
+                    }
+                }
+            }
+            0
+        }
+        "trace" => {
+            // diagnostic: print the captured state after each chunk of one Chunks op
+            let path = arg_value(&args, "--scenario").unwrap();
+            let sc: Scenario = serde_json::from_str(&std::fs::read_to_string(path).unwrap()).unwrap();
+            let env = Env::new(&sc.program, &sc.extras).unwrap();
+            let rf = reference(&env).unwrap();
+            println!("reference {} cost {:?}", rf.verdict.short(), rf.cost);
+            if let Some(Op::Chunks { budgets, pause, .. }) = sc.ops.first() {
+                let v = env.plain(!*pause);
+                let mut state: Option<TransactionState> = None;
+                let mut i = 0;
+                loop {
+                    let b = budgets.get(i).copied().unwrap_or(env.max_cycles);
+                    let r = match &state {
+                        None => v.resumable_verify(b),
+                        Some(st) => v.resume_from_state(st, b),
+                    };
+                    match r {
+                        Ok(VerifyResult::Suspended(st)) => {
+                            println!("chunk {i} budget {b}: suspended group {} completed-groups-cycles {}", st.current, st.current_cycles);
+                            if let Some(s) = &st.state {
+                                println!("  total_cycles {} iteration_cycles {} next_vm {} next_fd {} instantiated {:?} terminated {:?}", s.total_cycles, s.iteration_cycles, s.next_vm_id, s.next_fd_slot, s.instantiated_ids, s.terminated_vms);
+                                for (id, vs, snap) in &s.vms {
+                                    println!("  vm {id}: {:?} pc {:#x} cycles {} dirty_pages {} src_pages {}", vs, snap.pc, snap.cycles, snap.dirty_pages.len(), snap.pages_from_source.len());
+                                }
+                                println!("  fds {:?}", s.fds);
+                            }
+                            state = Some(st);
+                        }
+                        Ok(VerifyResult::Completed(c)) => {
+                            println!("chunk {i} budget {b}: completed {c}");
+                            break;
+                        }
+                        Err(e) => {
+                            println!("chunk {i} budget {b}: error {}", verdict_of_err(&e).short());
+                            break;
+                        }
+                    }
+                    i += 1;
+                    if i > 40 {
+                        break;
+                    }
+                }
+            }
+            0
+        }
+        "enum-info" => {
+            let units = enum_units();
+            let cases = enum_cases();
+            println!(
+                "{}",
+                serde_json::json!({"cases": cases.len(), "units": units.len(),
+                    "split_points": cases.iter().map(|c| c.1 - 1).sum::<u64>()})
+            );
+            0
+        }
+        _ => {
+            eprintln!("usage: simscript gen|exec|batch|corpus|enum-info ...");
+            2
+        }
+    };
+    drop_runtime();
+    std::process::exit(code);
+}
